@@ -52,8 +52,8 @@ ASSUMPTIONS = ['the evaluator only returns jobs taken from `required` (ev_ok); g
                'a population that received at least one individual ranks one of the individuals it received first (populations are '
                'modelled as "everything ever added")',
                'wall-clock criteria (MaxTime, TimeQuota, CompositeTimeQuota) are oracles; thread interleavings inside a generation '
-               'are not modelled; max_generations = 0 (error "cannot find any solution") is outside the statement '
-               '("a positive time/generation limit") and is modelled but not part of the oracle']
+               'are not modelled; max_generations = 0 (returns the first initial solution since /repo 2c5dd99, "cannot find any '
+               'solution" before) is outside the statement ("a positive time/generation limit") and is modelled but not part of the oracle']
 
 _ROOT = os.path.dirname(os.path.dirname(os.path.dirname(os.path.abspath(__file__))))
 _BUILD = os.environ.get('VERIF_BUILD', os.path.join(_ROOT, 'build'))
@@ -324,9 +324,9 @@ def break_only_tour(s, k):
 
 
 def account_violations(c, s, items):
-    """c02._violations with one more structural class: a tour that serves nothing but an optional break (finding C07-F3: a ruin
-    takes the last job out of a tour and leaves its break behind, the job is re-inserted elsewhere, OptionalBreakState::
-    remove_invalid_breaks keeps a break that stands at the departure location) - also in uninterrupted runs"""
+    """c02._violations with one more structural class: a tour that serves nothing but an optional break (finding C07-F3, repaired by
+    /repo 1ddcae7: a ruin took the last job out of a tour and left its break behind, the job was re-inserted elsewhere,
+    OptionalBreakState::remove_invalid_breaks kept a break that stands at the departure location) - also in uninterrupted runs"""
     items = list(items)
     out = c02._violations(c, s, items)
     if len(out) == len(items):
@@ -489,9 +489,10 @@ MANIFEST_TEXT = ('Machine-checked proof (Coq, no axioms) over an executable mode
                  'starts after the quota fired, loop iterations = search_many = add_all = population.on_generation calls = generations '
                  'counted (an empty generation neither stalls the counter nor loses an individual), metrics.generations is the index of '
                  'the last generation, and the generation count is exactly max_generations + 1 when nothing else stops the run (the '
-                 'clause "never more than the configured maximum" is refuted: finding C07-F1; "a positive time limit that is hit still '
-                 'yields a solution" is refuted when more than 5 % of the limit passed between building the configuration and running '
-                 'it: finding C07-F2, proved under that hypothesis). Tied to /repo by (a) exhaustive fault enumeration: for each generated '
+                 'clause "never more than the configured maximum" is refuted: finding C07-F1); "a positive time limit that is hit still '
+                 'yields a solution" holds for every clock since the initial phase builds one solution before its stop tests apply '
+                 '(finding C07-F2, repaired in /repo 2c5dd99; the pre-repair function is kept in the model under a switch and the old '
+                 'behaviour is a refuted-witness theorem). Tied to /repo by (a) exhaustive fault enumeration: for each generated '
                  'problem the real solver is re-run with the quota firing at every poll index 0..K+1, every returned document is checked '
                  'by the verified Coq checker valid_b, and generations / outcome / polls are diffed against the Coq model; (b) sub-stream '
                  'c07_loop: the real EvolutionConfigBuilder / VrpConfigBuilder + Iterative strategy driven with scripted user-supplied '
@@ -499,7 +500,8 @@ MANIFEST_TEXT = ('Machine-checked proof (Coq, no axioms) over an executable mode
                  'complete sequence of calls on them with arguments, iterations, telemetry and result diffed against the same model.')
 MANIFEST_NOTE = ('Trusted: Coq kernel + vm_compute; e2e rendering; harness (CountingQuota, backtrace poll labels, deterministic layout, '
                  'scripted pluggable pieces and their event log). Wall-clock criteria and thread interleavings are oracles / not modelled; '
-                 'CompositeTimeQuota is modelled by reading (crate-private). Known findings: max_generations = N >= 1 runs N + 1 '
-                 'generations (C07-F1); max_time with a late start returns "cannot find any solution" (C07-F2). Violation classes that are '
+                 'CompositeTimeQuota is modelled by reading (crate-private). Known finding: max_generations = N >= 1 runs N + 1 '
+                 'generations (C07-F1). Repaired: max_time with a late start returned "cannot find any solution" (C07-F2, 2c5dd99); a tour '
+                 'that served only an optional break (C07-F3, 1ddcae7). Violation classes that are '
                  'recorded findings of C01/C02/C03 are inherited, not re-reported.')
 MANIFEST_TECHNIQUE = 'Coq proof over executable loop model + exhaustive quota-fault enumeration on the real solver checked by a verified Coq checker'
